@@ -7,6 +7,9 @@ after it, before the consumer sees it), and a SequenceId / InstanceId change is 
 """
 from __future__ import annotations
 
+import copy
+import re
+
 from hypothesis import strategies as st
 
 from vf import canon as C
@@ -249,7 +252,33 @@ class Runner:
                                       f'reports with a new {case["idchange"]} id changed the consumer MDIB: '
                                       f'{[list(map(str, x)) for x in d[:2]]}'))
                 return self.findings
-        self.cmdib.reload_all()
+        # the reload runs with reports in flight: withheld reports of the history arrive while GetMdib is being answered
+        # (after an id change they belong to the old run; a delayed report of the old run may well carry a higher
+        # MdibVersion than the answer of the restarted provider, so their MdibVersion is raised by 1000)
+        in_flight = [i for i in range(m) if case['schedule'] and (i * 7 + len(seq)) % 3 == 0][:4]
+        fired = {'n': 0}
+
+        def arrivals(entry):
+            if entry.action is not None and entry.action.endswith('/GetMdib') and not fired['n']:
+                fired['n'] = 1
+                for i in in_flight:
+                    held_entry, headers = self.held[i]
+                    dup = copy.copy(held_entry)
+                    if case['idchange']:
+                        dup.request = re.sub(rb'MdibVersion="(\d+)"', lambda mo: b'MdibVersion="%d"' % (int(mo.group(1)) + 1000),
+                                             held_entry.request)
+                    try:
+                        L.NET.replay(dup, headers)
+                    except Exception as ex:  # noqa: BLE001
+                        if not R.exc_in_library(ex):
+                            raise
+                if in_flight:
+                    self.flags.add('reports-during-reload')
+        L.NET.pre_handle = arrivals
+        try:
+            self.cmdib.reload_all()
+        finally:
+            L.NET.pre_handle = None
         self.expect_mirror('final-reload')
         if not self.findings:
             # replays of the withheld reports: all of them are older than the reloaded state.  After an id change they
@@ -280,7 +309,8 @@ def case_fn(ctx, case):
         findings = r.run()
     finally:
         r.close()
-    nontrivial = bool(r.flags & {'duplicate', 'reorder', 'inflight-before-answer', 'inflight-after-answer'}) or any(
+    nontrivial = bool(r.flags & {'duplicate', 'reorder', 'inflight-before-answer', 'inflight-after-answer',
+                                 'reports-during-reload'}) or any(
         f.startswith('idchange') for f in r.flags)
     ctx.case(case, nontrivial, 'case', classes=tuple(sorted(r.flags)))
     return findings
